@@ -12,7 +12,8 @@ CFG = {
                           'Dlis.C07.origin_backfilled', 'Dlis.C07.origin_choice', 'Dlis.run_invariants',
                           'Dlis.C18.logical_files_isolated']),
     'C09': dict(theorems=['Dlis.C09.generator_shape', 'Dlis.C09.header_fields', 'Dlis.C09.defining_origin_first',
-                          'Dlis.C04.empty_set_no_record', 'Dlis.run_invariants', 'Dlis.Obligations.eflrTypes_eq']),
+                          'Dlis.C04.empty_set_no_record', 'Dlis.C04.fileHeader_parses', 'Dlis.run_invariants',
+                          'Dlis.Obligations.eflrTypes_eq']),
     'C18': dict(theorems=['Dlis.C18.logical_files_isolated', 'Dlis.C18.shared_set_rejected',
                           'Dlis.C18.frames_independent', 'Dlis.run_invariants']),
     'C20': dict(theorems=['Dlis.C20.rejected_leaves_objects', 'Dlis.C20.later_copy_numbers_unaffected',
